@@ -618,6 +618,51 @@ func r19DocNum(c *RuleCtx) {
 // ---------------------------------------------------------------------------
 // R20
 
+// dropsReaders: the value stored into docVisitState.dvrs forgets the old readers (nil or a fresh map).
+func dropsReaders(v ssa.Value) bool {
+	if isNilConst(v) {
+		return true
+	}
+	_, fresh := v.(*ssa.MakeMap)
+	return fresh
+}
+
+// helperDropsReaders: f (a function on a *docVisitState, parameter 0) replaces
+// the reader map by nil / a fresh map on every path, and does so before it
+// reads the map.
+func helperDropsReaders(f *ssa.Function) bool {
+	recv := f.Params[0]
+	pa := newPathAnalysis(f, func(in ssa.Instruction, ev uint64, _ bool) []uint64 {
+		if st, ok := in.(*ssa.Store); ok {
+			if sn, fld, base, ok := fieldOf(st.Addr); ok && sn == "docVisitState" && fld == "dvrs" && root(base) == ssa.Value(recv) && dropsReaders(st.Val) {
+				return []uint64{ev | 1}
+			}
+		}
+		return nil
+	})
+	pa.run(0)
+	okc := true
+	n := 0
+	for _, ret := range returnsOf(f) {
+		for _, ev := range pa.statesBefore(ret) {
+			n++
+			if ev&1 == 0 {
+				okc = false
+			}
+		}
+	}
+	eachInstr(f, func(_ *ssa.BasicBlock, in ssa.Instruction) {
+		if u, ok := in.(*ssa.UnOp); ok && isLoadOfField(u, "docVisitState", "dvrs") {
+			for _, ev := range pa.statesBefore(u) {
+				if ev&1 == 0 {
+					okc = false // the old readers are looked at before they are dropped
+				}
+			}
+		}
+	})
+	return okc && n > 0
+}
+
 func ruleR20() *Rule {
 	return &Rule{
 		ID:    "R20",
@@ -642,7 +687,13 @@ func ruleR20() *Rule {
 						return []uint64{ev | evFresh}
 					}
 				case *ssa.Store:
-					if sn, fld, _, ok := fieldOf(x.Addr); ok && sn == "docVisitState" && fld == "dvrs" && isNilConst(x.Val) {
+					if sn, fld, _, ok := fieldOf(x.Addr); ok && sn == "docVisitState" && fld == "dvrs" && dropsReaders(x.Val) {
+						return []uint64{ev &^ evStale}
+					}
+				case ssa.CallInstruction:
+					// a helper on the state that replaces the readers before it looks at them (`dvs.attach(s, fields)`)
+					if f := staticCallee(x); f != nil && c.p.InZap(f) && len(f.Blocks) > 0 && len(f.Params) > 0 && len(x.Common().Args) > 0 &&
+						isNamed(f.Params[0].Type(), zapPkgPath, "docVisitState") && helperDropsReaders(f) {
 						return []uint64{ev &^ evStale}
 					}
 				}
